@@ -252,6 +252,9 @@ func genC01(seed uint64) (*Scenario, *c01Meta) {
 		{Name: "bystander.csv", Content: "a,b\n1,2\n"},
 		{Name: "inc0.sql", Content: "UPDATE t0 SET n = n + 10 WHERE id < 3;\n"},
 		{Name: "inc1.sql", Content: "INSERT INTO t1 (id, n, s) VALUES (901, 9, 'src');\nUPDATE t1 SET n = n + 1 WHERE id = 901;\n"},
+		{Name: "exit0.sql", Content: "UPDATE t1 SET n = 55 WHERE id < 3;\nEXIT;\n"},
+		{Name: "exitif.sql", Content: "IF (SELECT COUNT(*) FROM t0) >= 0 THEN\n  WHILE TRUE DO\n    EXIT 0;\n  END WHILE;\nEND IF;\nUPDATE t0 SET n = 4711;\n"},
+		{Name: "fail.sql", Content: "UPDATE t0 SET n = n + 7;\nSELECT * FROM no_such_table;\n"},
 	}
 	if r.Bool(0.7) {
 		// the temporary table gets its first contents and a restore point (COMMIT)
@@ -369,10 +372,13 @@ func genC01(seed uint64) (*Scenario, *c01Meta) {
 			"DECLARE cz CURSOR FOR SELECT id FROM t1; OPEN cz; VAR @z; WHILE @z IN cz DO UPDATE t1 SET n = 1 / (id - id); END WHILE;",
 			"EXECUTE 'UPDATE t0 SET n = n + 5; SELECT * FROM no_such_table;';",
 			"CASE WHEN TRUE THEN INSERT INTO t1 (id, n, s) VALUES (902, 1, 'x'); SELECT 1 / 0 FROM t1; END CASE;",
+			"SOURCE `fail.sql`;\nUPDATE t1 SET n = 31337;",
 		))
 	case "exit":
 		g.lines = append(g.lines, r.PickS("EXIT;", "EXIT 3;", "IF TRUE THEN WHILE TRUE DO EXIT 4; END WHILE; END IF;",
-			"DECLARE fex FUNCTION () AS BEGIN UPDATE t0 SET n = n + 2000; EXIT 5; RETURN 1; END; PRINT fex();", "EXECUTE 'UPDATE t1 SET n = 77; EXIT;';", "EXIT 0;"))
+			"DECLARE fex FUNCTION () AS BEGIN UPDATE t0 SET n = n + 2000; EXIT 5; RETURN 1; END; PRINT fex();", "EXECUTE 'UPDATE t1 SET n = 77; EXIT;';", "EXIT 0;",
+			// the run is ended by a file that is read with SOURCE; statements after it must not run
+			"SOURCE `exit0.sql`;\nUPDATE t0 SET n = 31337;", "SOURCE `exitif.sql`;\nDELETE FROM t1;", "UPDATE t0 SET n = n + 1; SOURCE `exit0.sql`; UPDATE t1 SET n = 31337;"))
 	default:
 		g.dump("final", 0)
 		// the implicit commit must not depend on what the last statement is
